@@ -733,3 +733,125 @@ pub fn tree_histories(seed: u64, n: usize, max_len: u64) -> RunOut {
     }
     c.out
 }
+
+// ---------------------------------------------------------------------------------------------
+// on-disk layout (C06)
+
+fn hexfull(v: &[u8]) -> String { hex(v) }
+
+impl Ctx {
+    /// dump the raw stores of `name` and let the layout reader reconstruct the state from them
+    fn readfiles(&mut self, name: &str) {
+        let f = crate::backend::dump_files(&self.sim.h[name].world);
+        self.sim.readfiles_of = name.to_string();
+        self.run(format!("readfiles {} {} {} {}", hexfull(&f[0]), hexfull(&f[1]), hexfull(&f[2]), hexfull(&f[3])));
+    }
+}
+
+fn golden_hashes() -> Vec<String> {
+    // the constants certified against the JavaScript implementation, read from the repository's test
+    let src = std::fs::read_to_string("/repo/tests/js_interop.rs").unwrap_or_default();
+    let mut out = vec![];
+    for step in 1..=5 {
+        let Some(pos) = src.find(&format!("fn step_{step}_hash()")) else { continue };
+        let body = &src[pos..src[pos..].find("\n}\n").map(|e| pos + e).unwrap_or(src.len())];
+        let field = |n: &str| -> String { body.find(&format!("{n}: ")).map(|p| { let rest = &body[p + n.len() + 2..]; if rest.starts_with("None") { "NONE".to_string() } else { rest.split('"').nth(1).unwrap_or("").to_string() } }).unwrap_or_default() };
+        out.push(format!("bitfield={} data={} oplog={} tree={}", field("bitfield"), field("data"), field("oplog"), field("tree")));
+    }
+    out
+}
+
+pub fn layout_histories(seed: u64, n: usize, max_ops: u64) -> RunOut {
+    let mut r = Rng::new(seed);
+    let mut c = Ctx { sim: Sim::new(), out: RunOut { ops: vec![], outs: vec![], stats: BTreeMap::new(), failures: vec![], samples: vec![] }, seen: HashSet::new(), hist_digest: String::new() };
+    // --- the five-step interoperability scenario (tests/js_interop.rs), all steps executed by this crate
+    {
+        let golden = golden_hashes();
+        let steps: Vec<Vec<String>> = vec![
+            vec![format!("new W {SEED_HEX}")],
+            vec!["reopen W".into(), "batch W 48656c6c6f,576f726c64".into()],
+            vec!["reopen W".into(), "get W 0".into(), "get W 1".into(), "append W 6669727374".into(), "batch W 7365636f6e64,7468697264".into(), format!("append W {}", "61".repeat(4096 * 3)), "batch W ~".into(), "get W 2".into(), "get W 5".into()],
+            vec!["reopen W".into(), "append W 00".into(), "append W 01".into(), "append W 02".into(), "append W 03".into(), "append W 04".into()],
+            vec!["reopen W".into(), "clear W 5 6".into(), "clear W 7 9".into(), "info W".into(), "get W 5".into(), "get W 4".into()],
+        ];
+        for (i, st) in steps.iter().enumerate() {
+            for l in st { c.run(l.clone()); }
+            let got = c.run("sha W".into());
+            if let Some(g) = golden.get(i) { if *g != got { let line = c.sim.line; c.out.failures.push(Failure { key: format!("interop-hash-step-{}", i + 1), detail: format!("after step {} of the interoperability scenario the stores hash to [{got}], the hashes certified against the JavaScript implementation are [{g}]", i + 1), line }); } }
+            else { let line = c.sim.line; c.out.failures.push(Failure { key: "interop-golden-missing".into(), detail: "could not read the golden hashes from /repo/tests/js_interop.rs".into(), line }); }
+            c.readfiles("W");
+        }
+        *c.out.stats.entry("interop_steps".into()).or_insert(0) += 5;
+        c.end_history();
+    }
+    // --- dumps at every operation boundary, read back by the layout reader
+    for _ in 0..n {
+        c.run(format!("new W {SEED_HEX}"));
+        c.run("newr R W".into());
+        c.readfiles("W");
+        for _ in 0..r.range(3, max_ops) {
+            let wl = c.sim.h["W"].oracle.len; let rl = c.sim.h["R"].oracle.len;
+            if r.chance(2, 3) || wl == 0 {
+                let line = random_log_op(&mut r, wl, false, true);
+                let mutating = line.starts_with("append") || line.starts_with("batch") || line.starts_with("clear") || line.starts_with("ro ");
+                c.run(line);
+                if mutating { c.readfiles("W"); }
+            } else {
+                let behind = rl < wl;
+                let up = if behind && (rl == 0 || r.chance(2, 3)) { let to = r.range(rl + 1, wl); Some((rl, to - rl)) } else { None };
+                let horizon = up.map(|(s, l)| s + l).unwrap_or(rl);
+                if horizon == 0 { continue; }
+                let mut blk = "-".to_string();
+                if r.chance(2, 3) { let i = r.below(horizon); let o = c.run(format!("missing R {i}")); blk = format!("{i}:{}", o.strip_prefix("ok ").and_then(|x| x.parse::<u64>().ok()).unwrap_or(0)); }
+                let ups = up.map(|(s, l)| format!("{s}:{l}")).unwrap_or("-".into());
+                if blk == "-" && ups == "-" { continue; }
+                let o = c.run(format!("prove W {blk} - - {ups}"));
+                if o.starts_with("ok fork") { let t = crate::sim::proof_full_txt(c.sim.proof.as_ref().unwrap()); c.run(format!("applyp R {t}")); c.readfiles("R"); }
+            }
+        }
+        // --- the same storage re-encoded in other JS-valid forms, opened by the crate
+        let f = crate::backend::dump_files(&c.sim.h["W"].world);
+        let o = crate::jslayout::parse(&f[3]);
+        let idx = crate::sim::probe_indices(c.sim.h["W"].oracle.len);
+        let expect_now = c.sim.h["W"].oracle.probe_string(&idx);
+        if let Some((hdr, bit)) = crate::jslayout::newest(&o) {
+            let variants: Vec<(&str, crate::jslayout::Oplog)> = {
+                let mut v = vec![];
+                // header in slot 1 only / slot 0 only / both, entries re-framed with the matching current bit
+                let reframe = |es: &Vec<crate::jslayout::Frame>, b: bool| es.iter().map(|e| crate::jslayout::Frame { bit: b, partial: e.partial, payload: e.payload.clone() }).collect::<Vec<_>>();
+                v.push(("header-slot1-only", crate::jslayout::Oplog { slot0: None, slot1: Some(crate::jslayout::Frame { bit: true, partial: false, payload: hdr.clone() }), entries: reframe(&o.entries, true), trailing: vec![] }));
+                v.push(("header-slot0-only", crate::jslayout::Oplog { slot0: Some(crate::jslayout::Frame { bit: true, partial: false, payload: hdr.clone() }), slot1: None, entries: reframe(&o.entries, false), trailing: vec![] }));
+                v.push(("stale-entries-after", { let mut x = o.clone(); let stale: Vec<_> = reframe(&o.entries, !bit); x.entries.extend(stale); x }));
+                v.push(("trailing-garbage", { let mut x = o.clone(); let gl = r.range(1, 7) as usize; x.trailing = r.bytes(gl); x }));
+                v.push(("trailing-zero-leader", { let mut x = o.clone(); x.trailing = vec![0u8; 8]; x }));
+                v
+            };
+            for (kind, ov) in variants {
+                let bytes = crate::jslayout::render(&ov);
+                let out = c.run(format!("openfiles V {} {} {} {}", hexfull(&f[0]), hexfull(&f[1]), hexfull(&f[2]), hexfull(&bytes)));
+                *c.out.stats.entry(format!("synthetic_{kind}")).or_insert(0) += 1;
+                let line = c.sim.line;
+                if !out.starts_with("ok") { c.out.failures.push(Failure { key: format!("js-layout-not-opened:{kind}"), detail: format!("storage re-encoded as [{kind}] (valid for the JavaScript reader) was answered with {out} || history: {}", c.sim.history.iter().rev().skip(1).take(30).rev().map(|s| crate::sim::trunc(s).chars().take(120).collect::<String>()).collect::<Vec<_>>().join(" ; ")), line }); continue; }
+                c.sim.check_oracle = false;
+                let got = c.run("probe V".into());
+                c.sim.check_oracle = true;
+                let want = if expect_now.len() > 600 { format!("{} ## {:016x}", expect_now.split(" ::").next().unwrap(), fnv(&expect_now)) } else { expect_now.clone() };
+                if got != want { c.out.failures.push(Failure { key: format!("js-layout-wrong-state:{kind}"), detail: format!("storage re-encoded as [{kind}] opens to [{}], expected [{}]", crate::sim::trunc(&got), crate::sim::trunc(&want)), line }); }
+            }
+            // trailing partial entries are dropped: mark the last k entries partial, expect the state k operations ago
+            if !o.entries.is_empty() {
+                let mut x = o.clone();
+                let n = x.entries.len();
+                x.entries[n - 1].partial = true;
+                let bytes = crate::jslayout::render(&x);
+                let out = c.run(format!("openfiles V {} {} {} {}", hexfull(&f[0]), hexfull(&f[1]), hexfull(&f[2]), hexfull(&bytes)));
+                *c.out.stats.entry("synthetic_trailing-partial".into()).or_insert(0) += 1;
+                let line = c.sim.line;
+                if !out.starts_with("ok") { c.out.failures.push(Failure { key: "js-layout-not-opened:trailing-partial".into(), detail: format!("a storage whose last log entry is flagged partial (unfinished atomic batch) was answered with {out}"), line }); }
+                else { c.sim.check_oracle = false; c.run("probe V".into()); c.sim.check_oracle = true; }
+            }
+        }
+        c.end_history();
+    }
+    c.out
+}
